@@ -14,7 +14,7 @@ writer and every restart.  `RunOK` constrains only the blobs that are *accepted*
 clash-free source unless Keccak collides; its failure is finding F-C19a, proved below); rejected blobs —
 corrupted, unsolicited, late — are arbitrary.
 -/
-import YouVerif.C19.ProofsSource
+import YouVerif.C19.ProofsLoop
 
 namespace YouVerif.C19
 
@@ -237,6 +237,42 @@ theorem sync_correct {db0 src : List Entry} {root : Hash} {cb : Bool} {ops : Lis
   obtain ⟨h1, h2, h3⟩ := sync_reproduces_source hd0 hk0 hsrc hksrc hroot (Or.inr ⟨hrole, hnz⟩) hne hok hkey hno hdone
   exact ⟨h1, h2, h3.resolve_left hcol⟩
 
+/-! ## The downloader loop reports completion only when the trie is there
+
+`loopRun` (ModelLoop.lean) is `trieSync.loop` with its deferred `commit(true)`: events are what the loop's `select`
+receives (a finished request with its blobs and whether `process` gave up on a task, cancellation, a new peer, a
+threshold commit); the outcome is the error value `Wait()` returns.  Tied to the code by the end-to-end oracle of the
+harness (real Downloader, scripted peers), not by line-by-line correspondence. -/
+
+/-- **reports_incomplete.**  If the loop ends with nil (`.ok`) then nothing was pending, its state is a run of
+hash-checked deliveries and commits followed by the final commit, and the root is in the database.  Contrapositive:
+whenever the sync stops with something unanswered (a task failed with all peers, an invalid node, cancellation) the
+outcome is not `.ok`. -/
+theorem reports_incomplete {db0 : List Entry} {root : Hash} {cb : Bool} {evs : List LoopEv} {s' : St}
+    (hne : root ≠ e.emptyRoot) (h : loopRun e (newSync e db0 root cb) evs = (s', .ok)) :
+    ∃ ops, (∀ op ∈ ops, LoopOp op) ∧ (run e (newSync e db0 root cb) ops).pending = 0 ∧
+      s' = (step e (run e (newSync e db0 root cb) ops) (.commit none)).1 ∧ s'.dbHas root = true := by
+  obtain ⟨ops, hops, hp, hs⟩ := loopRun_ok evs _ s' h
+  refine ⟨ops, hops, hp, hs, ?_⟩
+  rw [hs]
+  exact complete_when_done (fun op hop => loopOp_not_restart (hops op hop)) hne hp
+
+/-- **loop_ok_reproduces_source.**  `reports_incomplete` composed with `sync_correct`: for a clash-free source, when
+the loop ends with nil the database shows a reader from the root exactly the source's entries, or Keccak collides. -/
+theorem loop_ok_reproduces_source {db0 src : List Entry} {root : Hash} {cb : Bool} {evs : List LoopEv} {s' : St}
+    (hd0 : DbClosed e role db0) (hk0 : HashKeyed e db0)
+    (hsrc : DbClosed e role src) (hksrc : HashKeyed e src) (hsok : SrcOK e role src)
+    (hroot : hasKey src root = true) (hrole : role root = .node cb) (hnz : root ≠ e.zeroHash) (hne : root ≠ e.emptyRoot)
+    (h : loopRun e (newSync e db0 root cb) evs = (s', .ok)) :
+    Collision e ∨
+    (hasKey s'.db root = true ∧ DbClosed e role s'.db ∧
+     ∀ x, (Reach e role s'.db root x ↔ Reach e role src root x) ∧
+      (Reach e role s'.db root x → ∀ v, (x, v) ∈ s'.db ↔ (x, v) ∈ src)) := by
+  obtain ⟨ops, hops, hp, hs⟩ := loopRun_ok evs _ s' h
+  rw [hs]
+  exact sync_correct hd0 hk0 hsrc hksrc hsok hroot hrole hnz hne (fun op hop => loopOp_srcOp (hops op hop))
+    (fun op hop => loopOp_not_restart (hops op hop)) hp
+
 /-! ## The property is false without role consistency: known finding F-C19a
 
 A state in which a raw entry (contract code) is byte-identical to a trie node with children has no consistent
@@ -386,5 +422,13 @@ example : ∀ op ∈ okOps2, SrcOp okEnv okRole okSrc op := by
   simp only [okOps2, List.mem_cons, List.not_mem_nil, or_false] at hop
   rcases hop with rfl | rfl | rfl | rfl | rfl | rfl | rfl | rfl | rfl | rfl | rfl | rfl
   all_goals trivial
+
+/-- tests on literals: a task given up and a cancellation end with `.err`; silence is `.waiting`;
+honest answers end with `.ok` -/
+example : (loopRun okEnv (newSync okEnv [] 10 true) [.response [1, 3] false, .response [] true]).2 = .err ∧
+    (loopRun okEnv (newSync okEnv [] 10 true) [.response [1] false, .cancel]).2 = .err ∧
+    (loopRun okEnv (newSync okEnv [] 10 true) [.response [1, 2] false, .wake]).2 = .waiting ∧
+    (loopRun okEnv (newSync okEnv [] 10 true) [.response [1, 7, 2] false, .flush, .response [3, 4, 5, 6] false]).2 = .ok := by
+  decide
 
 end YouVerif.C19
